@@ -79,6 +79,8 @@ class ModbusBinaryFramer(ModbusFramer):
         end = self._buffer.find(self._end)
         if end != -1:
             self._header['len'] = end
+            if end < 5:  # too short for unit, function code and crc
+                return False
             self._header['uid'] = struct.unpack('>B', self._buffer[1:2])[0]
             self._header['crc'] = struct.unpack('>H', self._buffer[end - 2:end])[0]
             data = self._buffer[start + 1:end - 2]
@@ -91,7 +93,7 @@ class ModbusBinaryFramer(ModbusFramer):
         it or determined that it contains an error. It also has to reset the
         current frame header handle
         """
-        self._buffer = self._buffer[self._header['len'] + 2:]
+        self._buffer = self._buffer[self._header['len'] + 1:]
         self._header = {'crc':0x0000, 'len':0, 'uid':0x00}
 
     def isFrameReady(self):
@@ -173,12 +175,18 @@ class ModbusBinaryFramer(ModbusFramer):
                 else:
                     _logger.debug("Not a valid unit id - {}, "
                                   "ignoring!!".format(self._header['uid']))
-                    self.resetFrame()
-                    break
-
-            else:
+                    # skip this frame only, later frames may be for us
+                    self.advanceFrame()
+            elif self._buffer.find(self._start) == -1:
                 _logger.debug("Frame check failed, ignoring!!")
                 self.resetFrame()
+                break
+            elif self._buffer.find(self._end) != -1:
+                # a complete but invalid frame: skip its start character
+                # and look for the next frame start behind it
+                self._buffer = self._buffer[1:]
+            else:
+                # the frame is not complete yet, wait for the rest
                 break
 
     def buildPacket(self, message):
